@@ -27,22 +27,16 @@ Proof. exact invariant_holds. Qed.
 Theorem C08_join_list_bounded : forall l : list who, NoDup l -> List.length l <= 3.
 Proof. exact nodup_who_length. Qed.
 
-(** A stdout/stderr worker dies while the process is still running: whatever
-    happens next (pipes held open or not, the process ending or not) the call
-    ends, reports that failure, and at most one 1 s join timeout is spent. *)
-Theorem C08_dead_worker_bounded_partial :
+(** A worker -- stdout, stderr or (since the fix of F-C08c) stdin -- dies while the
+    process is still running: whatever happens next (pipes held open or not, the
+    process ending or not) the call ends, reports that failure, and at most two
+    1 s join timeouts are spent (one per output worker). *)
+Theorem C08_dead_worker_bounded :
   forall c script w x,
-    start_raises c = false -> death_while_running c script = Some (w, x) -> w <> WIn ->
+    start_raises c = false -> death_while_running c script = Some (w, x) ->
     exists o, s_pc (fst (run_sm c script)) = PDone o /\ is_failure_report o = true /\
-              n_expired (snd (run_sm c script)) <= 1.
-Proof. exact dead_worker_bounded_partial. Qed.
-
-(** ... FALSE for the stdin worker (missing in the partial theorem: w = WIn; F-C08c):
-    the join of the stdout worker has no timeout. *)
-Theorem C08_dead_worker_bounded_refuted :
-  exists c script w x, start_raises c = false /\ death_while_running c script = Some (w, x) /\
-    s_pc (fst (run_sm c script)) = PHang.
-Proof. exact dead_worker_bounded_refuted. Qed.
+              n_expired (snd (run_sm c script)) <= 2.
+Proof. exact dead_worker_bounded. Qed.
 
 (** The shell cannot be started: reported, nothing started, nothing killed ...
     (guard: the failure is raised in the calling process, i.e. no pty) *)
@@ -78,17 +72,16 @@ Theorem C08_outcome_documented_refuted :   (* F-C08b *)
     s_pc (fst (run_sm c script)) = PDone OChildProcessError.
 Proof. exact outcome_documented_refuted. Qed.
 
-(** Flagship: for EVERY configuration and EVERY event script, outside the four
+(** Flagship: for EVERY configuration and EVERY event script, outside the three
     catalogued defect regions ([guard08]: not (start failure under a pty) F-C08a,
-    not (pty and an interrupt right after the reaping poll) F-C08b, the first
-    worker death while running is not the stdin worker's F-C08c, no worker death
+    not (pty and an interrupt right after the reaping poll) F-C08b, no worker death
     before a process end with fair pipes F-C08d) the model satisfies the
     executable spec. *)
 Theorem C08_run_meets_spec_partial :
   forall c script, guard08 c script = true -> C08Spec.spec_ok c script (observe (run_sm c script)) = true.
 Proof. exact run_meets_spec08. Qed.
 
-(** The F-C08d region narrowed to its one conjunct: with only F-C08a/b/c excluded,
+(** The F-C08d region narrowed to its one conjunct: with only F-C08a/b excluded,
     everything the spec demands holds except "the child has been reaped" (the spec
     is met by the observation with that one field forced to true). *)
 Theorem C08_run_meets_spec_upto_reaped_partial :
@@ -113,7 +106,7 @@ Proof. exact reaped_general. Qed.
 
 (** The same flagship statement as a finite sweep (a TEST, not the property): for all 128
     configurations and all 2380 scripts of at most 3 events over a 13-event
-    alphabet, outside the four catalogued defect regions the model satisfies
+    alphabet, outside the three catalogued defect regions the model satisfies
     the executable spec. *)
 Theorem C08_run_meets_spec_bounded_3 :
   sweep ok08 (configs true) (scripts_upto alphabet08 3) = true.
@@ -122,7 +115,7 @@ Proof. exact sweep08_3. Qed.
 (** Tie to the source text (Generated/Tables.v is rewritten from invoke/runners.py
     on every run): [Runner._thread_join_timeout] is, statement for statement, what
     [RunnerSM.join_bounded] was written from -- no timeout for the stdin worker,
-    1 s iff the out/err sibling is dead.  [None]: shape not recognised by the
+    1 s for an output worker iff its out/err sibling or the stdin worker is dead.  [None]: shape not recognised by the
     translator (behavioural correspondence only). *)
 From InvokeVerif Require Generated.Tables.
 Theorem C08_join_timeout_matches_source :
@@ -131,6 +124,8 @@ Theorem C08_join_timeout_matches_source :
                    "opposite = self.handle_stderr";
                    "if target == self.handle_stderr: opposite = self.handle_stdout";
                    "if opposite in self.threads and self.threads[opposite].is_dead: return 1";
+                   "stdin = self.handle_stdin";
+                   "if stdin in self.threads and self.threads[stdin].is_dead: return 1";
                    "return None"]%string
   | None => True
   end.
@@ -146,6 +141,13 @@ Example C08_ex_terminates :     (* output, exit 3, timer after the exit, EOFs: e
             [(WOut, false); (WIn, false); (WErr, false)].
 Proof. vm_compute. auto. Qed.
 
+Example C08_ex_stdin_worker_death :   (* the F-C08c witness: stdin worker dies, the command keeps its pipes open *)
+  let c := mkCfg false true false false false false true true in
+  death_while_running c [EExc WIn XOther] = Some (WIn, XOther) /\
+  s_pc (fst (run_sm c [EExc WIn XOther])) = PDone OThreadException /\
+  n_expired (snd (run_sm c [EExc WIn XOther])) = 2.
+Proof. exact stdin_death_witness. Qed.
+
 Example C08_ex_dead_worker :    (* stderr worker dies, stdout pipe held: 1 s join timeout, reported *)
   let c := mkCfg false false false false false false true false in
   let script := [EChunk WOut; EExc WErr XWatcher] in
@@ -153,3 +155,12 @@ Example C08_ex_dead_worker :    (* stderr worker dies, stdout pipe held: 1 s joi
   s_pc (fst (run_sm c script)) = PDone OFailure /\ n_expired (snd (run_sm c script)) = 1 /\
   o_alive (observe (run_sm c script)) = [WOut].
 Proof. vm_compute. auto. Qed.
+
+(** * Historical record: F-C08c (fixed)
+    Before the fix [_thread_join_timeout] looked only at the out/err sibling: with
+    the stdin worker dead and the command waiting for input, join(stdout worker)
+    had no timeout and run() blocked for ever.  The old rule against the new one: *)
+Theorem C08_join_timeout_historical_refuted :
+  exists k, is_dead (s_in k) = true /\ is_run (s_out k) = true /\
+            join_bounded_legacy k WOut = false /\ join_bounded k WOut = true.
+Proof. exact join_timeout_historical_refuted. Qed.
